@@ -371,7 +371,7 @@ def stream(rng, families, n, events=None, now0=NOW0, open_line="open a mem", dum
                     ops.append(f"sleep {ms}")
                     now += ms
                 elif ev == "reopen":
-                    ops += ["close", "reopen"]
+                    ops += ["ldump", "close", "reopen", "ldump"]     # the two logical dumps must be equal (C11)
                 else:
                     ops.append(ev)
                 break
